@@ -31,6 +31,14 @@ class ToolError(Exception):
     pass
 
 
+class Crashed(Exception):
+    """The harness process was killed by a signal (abort on allocation failure, stack overflow, ...) while it was executing the
+    code under test: that is an observation about the code, not a tool error. `crumb` is the input it was working on."""
+    def __init__(self, binary, args, signal, crumb, tail):
+        Exception.__init__(self, "%s died with signal %s" % (binary, signal))
+        self.binary, self.args, self.signal, self.crumb, self.tail = binary, args, signal, crumb, tail
+
+
 def seed():
     try:
         return int(os.environ.get("VERIF_SEED", "1"))
@@ -182,8 +190,22 @@ def harness(binary, args, timeout=900, stdin=None, env=None):
     e["VERIF_SEED"] = str(seed())
     if env:
         e.update(env)
+    os.makedirs(RUN, exist_ok=True)
+    crumb = os.path.join(RUN, "crumb-%s-%d.json" % (binary, os.getpid()))
+    e["VERIF_CRUMB"] = crumb
     p = subprocess.run(["timeout", str(timeout), os.path.join(BIN, binary)] + [str(a) for a in args],
                        stdin=stdin, stdout=subprocess.PIPE, stderr=subprocess.STDOUT, text=True, env=e)
+    last = None
+    if os.path.exists(crumb):
+        try:
+            last = json.load(open(crumb))
+        except Exception:
+            last = None
+        os.remove(crumb)
+    sig = -p.returncode if p.returncode < 0 else (p.returncode - 128 if p.returncode in (132, 134, 135, 136, 139) else None)
+    if sig in (4, 6, 7, 8, 11):
+        sys.stdout.write(p.stdout[-3000:])
+        raise Crashed(binary, [str(a) for a in args], sig, last, p.stdout[-3000:])
     if p.returncode != 0:
         sys.stdout.write(p.stdout[-4000:])
         raise ToolError("%s %s exited %d" % (binary, " ".join(map(str, args[:3])), p.returncode))
